@@ -222,6 +222,8 @@ def certify_ansatz(goal, hyps, rounds=2, cap=6000):
             break
         S |= new
     cands = sorted(cands)
+    if len(cands) * max(1, len(S)) > 6_000_000:
+        return {"ok": False, "seconds": round(time.time() - t0, 3), "cofactor_terms": 0, "why": "ansatz system too large (size cap)"}
     rows = {}
     for m in goal.t:
         rows.setdefault(m, len(rows))
@@ -364,7 +366,7 @@ def prove_in_ideal(goal, hyps):
     if c["ok"]:
         c["method"] = "ansatz+exact-check"
         return c
-    if len(hyps) > 12:
+    if len(hyps) > 8 or len(goal.t) > 300 or sum(len(h.t) for h in hyps) > 400:
         c["method"] = "ansatz"
         return c
     c2 = certify(goal, hyps)
